@@ -640,7 +640,7 @@ func (e *Engine) execOp(idx int, op *Op, st *StepRec) {
 		// consume a request id (and a call-table slot) without sending anything:
 		// keeps ids and references aligned with a run in which this op was sent
 		s := e.Sess[op.S]
-		if s.Started && op.Mode != "cancel" && op.Mode != "yield" && op.Mode != "error" && op.Mode != "goodbye" { // CANCEL reuses the call's request id, YIELD/ERROR carry the invocation's
+		if s.Started && op.Mode != "cancel" && op.Mode != "yield" && op.Mode != "error" && op.Mode != "goodbye" && op.Mode != "chunk" { // CANCEL reuses the call's request id, YIELD/ERROR carry the invocation's
 			req := s.NextReq()
 			if op.Mode == "call" || op.Mode == "meta" {
 				s.Calls = append(s.Calls, idRec{ID: req, URI: op.URI, Aux: "skipped"})
